@@ -25,12 +25,11 @@ def write_projects(root, sh, present, names=None):
         lines = []
         if pj is not None:
             lines.append('name: %s' % pj)
-        if pj == sh.root_name:
-            imps = [(q, dd) for q, dd in sh.projects.items() if q != pj]
-            if imps:
-                lines.append('imports:')
-                for q, dd in imps:
-                    lines.append('  %s: ..%s' % (q, dd['dir']))
+        imps = sh.import_map(pj)
+        if imps:
+            lines.append('imports:')
+            for q, rel in imps.items():
+                lines.append('  %s: %s' % (q, rel))
         lines.append('targets:')
         for t, kind in d['targets'].items():
             lines.append('  %s:' % t)
